@@ -55,6 +55,7 @@ type r16Case struct {
 	NReq    int        `json:"nreq"`   // outbound requests 1..2
 	Amount  uint64     `json:"amount"`
 	Batches []r16Batch `json:"batches"`
+	Persist bool       `json:"persist,omitempty"` // every applied transaction ends a block that is flushed to the store
 }
 
 func genR16(t *rapid.T) r16Case {
@@ -65,6 +66,7 @@ func genR16(t *rapid.T) r16Case {
 	}
 	c.NReq = rapid.IntRange(1, 2).Draw(t, "nreq")
 	c.Amount = rapid.Uint64Range(1000000, 5000000000).Draw(t, "amount")
+	c.Persist = rapid.Bool().Draw(t, "persist")
 	c.Batches = rapid.SliceOfN(rapid.Custom(func(t *rapid.T) r16Batch {
 		b := r16Batch{Signers: rapid.SliceOfN(rapid.IntRange(0, c.NS), 1, c.NS).Draw(t, "signers"), Req: rapid.IntRange(0, 1).Draw(t, "req")}
 		if rapid.IntRange(0, 7).Draw(t, "corruptclass") == 0 {
@@ -211,8 +213,9 @@ func onlySignerOrderDiffers(a, b []r16Note) bool {
 }
 
 type r16Env struct {
-	ctx *ev.Ctx
-	w   *world.World
+	ctx     *ev.Ctx
+	w       *world.World
+	persist bool
 }
 
 // exec: N executions on forks of the same prior state must agree; then the transaction is applied.
@@ -249,6 +252,9 @@ func (e *r16Env) exec(what string, contract common.Address, method string, args 
 	r16Count("ripple:"+method+":txs", 1)
 	r16Count("ripple:executions", n)
 	res := e.w.Exec(tx)
+	if e.persist {
+		e.w.Persist()
+	}
 	if res.OK() != first.ok {
 		e.ctx.Failf("%s: the applied transaction ended ok=%v (%v) but the forked executions ended ok=%v (%s)", what, res.OK(), res.Err, first.ok, first.errText)
 	}
@@ -310,7 +316,7 @@ func runR16(ctx *ev.Ctx, c r16Case) {
 	const nval = 2
 	w, release := newWorld(nval)
 	defer release()
-	e := &r16Env{ctx: ctx, w: w}
+	e := &r16Env{ctx: ctx, w: w, persist: c.Persist}
 	scm, ccmAddr := utils.SideChainManagerContractAddress, utils.CrossChainManagerContractAddress
 	const srcID, ripID = uint64(2), uint64(3)
 	owner := world.Acct(20)
